@@ -53,6 +53,31 @@ func c01(args []string) int {
 		}
 		return 0
 	}
+	if c.extra == "generic" { // instantiations of generic functions: the replacement must see the caller's arguments too
+		var seen []int
+		b := mocker.Create()
+		for i, tc := range []struct {
+			name string
+			f    func(int) int
+		}{{"GK[int]", fnzoo.GK[int]}, {"GK[string]", fnzoo.GK[string]}} {
+			seen = seen[:0]
+			pan := ""
+			got := 0
+			func() {
+				defer func() {
+					if e := recover(); e != nil {
+						pan = trunc(fmt.Sprint(e), 80)
+					}
+				}()
+				b.Func(tc.f).Apply(func(a int) int { seen = append(seen, a); return 1000 + a })
+				got = tc.f(5 + i)
+			}()
+			out.Put(map[string]interface{}{"kind": "generic", "name": tc.name, "sent": 5 + i, "seen": fmt.Sprint(seen), "seen_ok": len(seen) == 1 && seen[0] == 5+i,
+				"got_ok": got == 1005+i, "panic": pan})
+		}
+		b.Reset()
+		return 0
+	}
 	if c.extra == "retain" { // the replacement must stay reachable from goom itself: nothing of the program keeps the builder or the callback
 		type tcase struct {
 			name string
